@@ -1,6 +1,7 @@
 import Libp2pModel.Proofs.C37Table
 import Libp2pModel.Proofs.C37Cap
 import Libp2pModel.Proofs.C37Spec
+import Libp2pModel.Proofs.C37MonE
 /-!
 # C37 — the k-bucket routing table keeps its structural invariants (property theorems)
 
@@ -205,63 +206,6 @@ theorem pending_applied_iff {l i B tick : Nat} {b : Bucket} (h : BInv l i B b) (
   | room q b' _ _ hroom _ _ _ _ =>
     exact ⟨⟨fun _ => Or.inl hroom, fun _ => rfl⟩, fun hn => by cases hn⟩
 
-/-- a pending entry is created only by a `Connected` insert into a full bucket whose head is
-disconnected; it becomes due exactly `pending_timeout` later, and the reported "disconnected" key is
-the head of the bucket -/
-theorem pending_created {l i B : Nat} {b : Bucket} (h : BInv l i B b) (node : Node) (st : Status) (now d : Nat)
-    (hr : (b.insert node st now).2 = .pending d) :
-    st = .connected ∧ b.capacity ≤ b.nodes.length ∧ b.pending = none ∧ b.status 0 = .disconnected ∧
-    (b.nodes.head?.map (·.key)) = some d ∧
-    (b.insert node st now).1.pending = some ⟨node, .connected, now + b.timeout⟩ ∧
-    (b.insert node st now).1.nodes = b.nodes := by
-  cases st with
-  | disconnected =>
-    exfalso
-    unfold Bucket.insert at hr
-    simp only at hr
-    split at hr
-    · cases hr
-    · split at hr
-      · split at hr <;> cases hr
-      · cases hr
-  | connected =>
-    by_cases hfull : b.capacity ≤ b.nodes.length
-    · by_cases hc : b.firstConn = some 0 ∨ b.pending.isSome = true
-      · exfalso
-        simp only [Bucket.insert, hfull, if_true, hc] at hr
-        cases hr
-      · have hc' := not_or.1 hc
-        have hpn : b.pending = none := by
-          cases hp : b.pending with
-          | none => rfl
-          | some p => exact absurd (by simp [hp]) hc'.2
-        have hst : b.status 0 = .disconnected := by
-          unfold Bucket.status
-          cases hfc : b.firstConn with
-          | none => rfl
-          | some p =>
-            have : p ≠ 0 := fun e => hc'.1 (by rw [hfc, e])
-            have : ¬ p ≤ 0 := by omega
-            simp only [this, if_false]
-        have hne : b.nodes ≠ [] := by
-          intro e
-          have := h.capPos
-          rw [e] at hfull
-          simp at hfull
-          omega
-        obtain ⟨n0, rest, hnodes⟩ := List.exists_cons_of_ne_nil hne
-        have hres : b.insert node .connected now =
-            ({ b with pending := some ⟨node, .connected, now + b.timeout⟩ }, .pending n0.key) := by
-          simp only [Bucket.insert, hfull, if_true, hc, if_false]
-          rw [hnodes]
-        rw [hres] at hr ⊢
-        simp only [InsertResult.pending.injEq] at hr
-        refine ⟨rfl, hfull, hpn, hst, ?_, rfl, rfl⟩
-        rw [hnodes, ← hr]; rfl
-    · exfalso
-      simp only [Bucket.insert, hfull, if_false] at hr
-      cases hr
-
 /-- …"and only if that entry is still disconnected": when the least-recently-updated entry
 (position 0) is updated to `Connected`, the pending entry is discarded -/
 theorem head_reconnect_drops_pending {l i B : Nat} {b : Bucket} (h : BInv l i B b) (key now tick : Nat)
@@ -355,6 +299,49 @@ theorem spec_accepts_model (l s T : Nat) (hl : l < 2 ^ 256) (hs : 1 ≤ s) (ops 
   rw [hloc] at this
   exact this
 
+/-! ## The trace monitor accepts the model's own trace -/
+
+theorem observe_inv {t : Table} (h : TInv t) (op : Op) (hv : op.Valid) : TInv (t.observe op).1 := by
+  have hs := step_inv h op hv
+  exact ⟨hs.localLt, hs.len, hs.buckets⟩
+
+theorem mdump_new (l s T : Nat) : (Table.new l s T).mdump = [] := by
+  unfold Table.mdump
+  rw [List.filterMap_eq_nil_iff]
+  intro i hi
+  have hi' : i < 256 := by simpa [NUM_BUCKETS] using hi
+  rw [bucket_new l s T i hi']
+  simp [Bucket.new]
+
+/-- the initial monitor state is related to the empty table -/
+theorem monR_init (l s T : Nat) : MonR (Mon.init l s T) (Table.new l s T) := by
+  refine ⟨rfl, ?_, ?_, rfl, rfl, (mdump_new l s T).symm, rfl, ?_, ?_⟩
+  · intro i hi; rw [bucket_new l s T i hi]; rfl
+  · intro i hi; rw [bucket_new l s T i hi]; rfl
+  · intro i hi n hn; rw [bucket_new l s T i hi] at hn; simp [Bucket.new] at hn
+  · intro i hi p hp; rw [bucket_new l s T i hi] at hp; simp [Bucket.new] at hp
+
+theorem monRun_of_rel : ∀ (ops : List Op) (m : Mon) (t : Table), MonR m t → TInv t → (∀ o ∈ ops, o.Valid) →
+    monRun m (t.traceOf ops) = true
+  | [], _, _, _, _, _ => rfl
+  | o :: os, m, t, hR, h, hv => by
+    obtain ⟨h1, h2⟩ := step_accepts hR h o (hv o (by simp))
+    simp only [Table.traceOf, monRun, h1, Option.isNone_none, Bool.true_and]
+    exact monRun_of_rel os _ _ h2 (observe_inv h o (hv o (by simp))) (fun x hx => hv x (by simp [hx]))
+
+/-- **C37.monitor_accepts_model** — for every local key, bucket size, timeout and every history of
+API calls (insert / update / remove / lookup / bucket / iter on arbitrary 256-bit keys and statuses,
+`apply_pending` firing at arbitrary instants, `take_applied_pending` drained after every call) and
+clock advances, the complete trace monitor (`monStep`: structural clauses, the pending rule on every
+applied record, last-assigned status and least-recently-updated order by the monitor's own
+bookkeeping) accepts the model's own trace. The relation `MonR` ties the monitor's bookkeeping to the
+model's ghost state (`assigned` = ghost status/stamp of every stored node; `created + timeout` = the
+unobservable `PendingNode.replace`). -/
+theorem monitor_accepts_model (l s T : Nat) (hl : l < 2 ^ 256) (hs : 1 ≤ s) (ops : List Op)
+    (hv : ∀ o ∈ ops, o.Valid) :
+    monRun (Mon.init l s T) ((Table.new l s T).traceOf ops) = true :=
+  monRun_of_rel ops _ _ (monR_init l s T) (inv_new l s T hl hs) hv
+
 /-! ## Non-vacuity: a concrete run that creates, keeps, and applies a pending entry -/
 
 /-- local key 0, bucket size 1, timeout 5; keys 4 and 5 share bucket 2 -/
@@ -369,6 +356,14 @@ example : ∀ o ∈ demoOps, o.Valid := by
 example : (((Table.new 0 1 5).run demoOps).bucket 2).nodes.map (·.key) = [5] ∧
     ((Table.new 0 1 5).run demoOps).applied.map (fun a => (a.inserted.key, a.evicted.map (·.key))) =
       [(5, some 4)] := by decide +kernel
+
+/-- the demo history (a pending entry applied after its timeout, evicting the least-recently-updated
+disconnected node) is accepted by the monitor -/
+example : monRun (Mon.init 0 1 5) ((Table.new 0 1 5).traceOf demoOps) = true :=
+  monitor_accepts_model 0 1 5 (by decide) (by decide) demoOps (by
+    intro o ho
+    simp only [demoOps, List.mem_cons, List.mem_nil_iff, or_false] at ho
+    rcases ho with rfl | rfl | rfl | rfl | rfl | rfl <;> simp [Op.Valid])
 
 end C37
 
@@ -389,6 +384,8 @@ end C37
 #print axioms C37.head_reconnect_drops_pending
 #print axioms C37.insert_results
 #print axioms C37.spec_accepts_model
+#print axioms C37.step_accepts
+#print axioms C37.monitor_accepts_model
 #print axioms C37.spec_dump
 #print axioms C37.insert_inv
 #print axioms C37.remove_spec
